@@ -93,11 +93,27 @@ func copyBlock(v reflect.Value, block Block) error {
 			return fmt.Errorf("found field %q but is unexported", f.Name)
 		}
 
-		namei := f.Index[0]
+		// the field may be promoted from an embedded struct: follow the whole index
+		fv, err := v.FieldByIndexErr(f.Index)
+		if err != nil {
+			return fmt.Errorf("cannot reach field %q: %w", f.Name, err)
+		}
 		vx := reflect.ValueOf(x)
+		if !vx.IsValid() {
+			return fmt.Errorf(
+				"type mismatch for the mapped field: struct.%s has %s, block.%s has nil",
+				f.Name, f.Type, name,
+			)
+		}
 
 		if vx.Type().AssignableTo(blockType) {
-			return copyBlock(v.Field(namei), x.(Block))
+			if fv.Kind() != reflect.Struct {
+				return fmt.Errorf(
+					"type mismatch for the mapped field: struct.%s has %s, block.%s is a block",
+					f.Name, f.Type, name,
+				)
+			}
+			return copyBlock(fv, x.(Block))
 		}
 
 		if st, bt := f.Type, vx.Type(); !bt.AssignableTo(st) {
@@ -107,7 +123,7 @@ func copyBlock(v reflect.Value, block Block) error {
 			)
 		}
 
-		v.Field(namei).Set(vx)
+		fv.Set(vx)
 		return nil
 	}
 
